@@ -252,6 +252,7 @@ func main() {
 	factsSkeleton()
 	factsStoreConstructors()
 	factsPools()
+	factsStatusCallback()
 
 	out.WriteString("\nend Pike.Facts\n")
 	if outPath == "" {
